@@ -57,6 +57,14 @@ def gen_list(rng, cfg, enc, n, big=False):
     return out
 
 
+def peek(obj, name):
+    """Extra observables of an instance, when it has them (they are not part of any public contract)."""
+    try:
+        return getattr(obj, name, None)
+    except Exception:      # noqa
+        return None
+
+
 def cases(ctx):
     quick = ctx.tier == 'quick'
     cids = msgwork.config_ids(ctx, 3 if quick else 12, 1 if quick else 3)
@@ -244,7 +252,7 @@ class Program:
         self.pc += 1
         if self.role == 'reader':
             # what the instance shows before it is touched again: other instances have run since its last step
-            self.trace.append(('before', self.inst.record_number, digest(self.inst.last_record or b'')))
+            self.trace.append(('before', peek(self.inst, 'record_number'), digest(peek(self.inst, 'last_record') or b'')))
         try:
             if op == 'write':
                 self.inst.write(dict(self.msgs[arg]))
@@ -254,10 +262,10 @@ class Program:
                 self.trace.append(('closed', digest(self.f.getvalue()), len(self.f.getvalue())))
             else:
                 rec = next(self.inst)
-                self.trace.append(('record', digest(repr(sorted(rec.items(), key=lambda kv: kv[0]))), self.inst.record_number,
-                                   digest(self.inst.last_record or b'')))
+                self.trace.append(('record', digest(repr(sorted(rec.items(), key=lambda kv: kv[0]))), peek(self.inst, 'record_number'),
+                                   digest(peek(self.inst, 'last_record') or b'')))
         except StopIteration:
-            self.trace.append(('end', self.inst.record_number))
+            self.trace.append(('end', peek(self.inst, 'record_number')))
             self.done = True
         except Exception as ex:  # noqa - part of the observable behaviour
             self.trace.append(('error', type(ex).__name__, getattr(ex, 'record_number', None),
